@@ -567,10 +567,14 @@ fn events(ctx: &Context<'_>) -> usize {
 
 #[Subscription]
 impl Subscription {
-    async fn ev(&self, ctx: &Context<'_>) -> impl Stream<Item = Option<A>> {
+    async fn ev(&self, ctx: &Context<'_>) -> impl Stream<Item = Result<Option<A>>> {
         let wd = ctx.data_unchecked::<W>().clone();
         let n = events(ctx);
-        stream::iter((0..n).map(move |_| if wd.table.get("ev") == Some(&Ans::Null) { None } else { Some(A) }))
+        stream::iter((0..n).map(move |_| match wd.table.get("ev") {
+            Some(Ans::Err) => Err(boom()),
+            Some(Ans::Null) => Ok(None),
+            _ => Ok(Some(A)),
+        }))
     }
     async fn evn(&self, ctx: &Context<'_>) -> impl Stream<Item = Result<Option<i32>>> {
         let wd = ctx.data_unchecked::<W>().clone();
